@@ -7,6 +7,8 @@ sys.path.insert(0, HERE)
 
 
 def main():
+    import warnings
+    warnings.simplefilter('ignore', SyntaxWarning)
     import instantiate
     instantiate.main()
     rc = 0
